@@ -100,8 +100,61 @@ func init() {
 		out.WriteString("]\n")
 		fmt.Fprintf(out, "def layersFromLatest : Bool := %v\n", all)
 
-		// slice arithmetic of the apply steps
+		// Meta.Persist: which indexes decide whether a table has unsaved changes?
+		// `ti.Indexes[0].Modified()` = the first one only; a call of Modified() on a loop
+		// variable (directly or in a helper the condition calls) = every index.
 		info := parseGo(filepath.Join(repo, "db19/meta/info.go"))
+		pm := info.method("Meta", "Persist")
+		firstOnly, viaHelper := false, ""
+		ast.Inspect(pm.Body, func(n ast.Node) bool {
+			is, ok := n.(*ast.IfStmt)
+			if !ok {
+				return true
+			}
+			ast.Inspect(is.Cond, func(c ast.Node) bool {
+				if ce, ok := c.(*ast.CallExpr); ok {
+					if se, ok := ce.Fun.(*ast.SelectorExpr); ok && se.Sel.Name == "Modified" {
+						if ie, ok := se.X.(*ast.IndexExpr); ok {
+							if bl, ok := ie.Index.(*ast.BasicLit); ok && bl.Value == "0" {
+								firstOnly = true
+							}
+						}
+					}
+					if id, ok := ce.Fun.(*ast.Ident); ok && id.Name != "len" {
+						viaHelper = id.Name
+					}
+				}
+				return true
+			})
+			return false
+		})
+		allIdx := false
+		if !firstOnly && viaHelper != "" {
+			hf := info.fn(viaHelper)
+			ast.Inspect(hf.Body, func(n ast.Node) bool {
+				if rs, ok := n.(*ast.RangeStmt); ok {
+					ast.Inspect(rs.Body, func(c ast.Node) bool {
+						if ce, ok := c.(*ast.CallExpr); ok {
+							if se, ok := ce.Fun.(*ast.SelectorExpr); ok && se.Sel.Name == "Modified" {
+								if id, ok := se.X.(*ast.Ident); ok {
+									if v, ok := rs.Value.(*ast.Ident); ok && v.Name == id.Name {
+										allIdx = true
+									}
+								}
+							}
+						}
+						return true
+					})
+				}
+				return true
+			})
+		}
+		if !firstOnly && !allIdx {
+			return fmt.Errorf("Meta.Persist: the test for unsaved changes has neither of the two known shapes")
+		}
+		fmt.Fprintf(out, "def persistChecksAllIndexes : Bool := %v\n", allIdx)
+
+		// slice arithmetic of the apply steps
 		ov := parseGo(filepath.Join(repo, "db19/index/overlay.go"))
 		emitSlices(out, info, info.method("MergeUpdate", "Apply1"), "mergeApply1", "ti.Deltas", "mu.nmerged")
 		emitSlices(out, ov, ov.method("Overlay", "WithMerged"), "withMerged", "ov.layers", "nmerged")
